@@ -166,6 +166,23 @@ def check(ctx, parts=('cursor', 'store', 'index', 'guards', 'atomic', 'tobytes',
         else:
             ctx.violation('R8-sorted-index', ins, m.text(), 'insertion index %s is not bisect_right(begins, position): the begins list loses its order' % canon(idx), m.lineno, clause='3')
 
+    # ---------------------------------------------------------- (3') both bisects: the chunk AT position
+    if 'guards' in parts or 'index' in parts:
+        texts = set()
+        for p in paths:
+            for g in p.guard_texts():
+                texts.add(g)
+            for e in p.all_effects():
+                texts.add(e.text())
+        blob = ' '.join(texts)
+        BL, BR = 'bisect_left(%s, %s)' % (BG, POS), 'bisect_right(%s, %s)' % (BG, POS)
+        if BL in blob and BR in blob:
+            strictly_before = '%s[(%s + -1)]' % (BG, BL) in blob
+            strictly_after = '%s[%s]' % (BG, BR) in blob or '%s[(%s)]' % (BG, BR) in blob
+            at_position = ('%s[%s]' % (BG, BL) in blob) or ('%s[(%s + -1)]' % (BG, BR) in blob) or ('(%s in %s)' % (POS, CM) in blob) or ('%s.get(%s' % (CM, POS) in blob)
+            if strictly_before and strictly_after and not at_position:
+                ctx.violation('R8-collision-guards', ins, 'neighbours: %s[bisect_left - 1] (strictly before) and %s[bisect_right] (strictly after)' % (BG, BG), 'a chunk that begins exactly at the position is compared with neither neighbour test: inserting there replaces it silently (its bytes are dropped, no collision is raised)', ins.node.lineno, clause='4', witness=True)
+
     # ---------------------------------------------------------- (4) collision guards
     # insert looks at its arguments only through comparisons of a handful of quantities: decide
     # the raise / store outcome in every consistent situation (bistat/tt.py)
